@@ -30,3 +30,21 @@ PROPS["C07"] = dict(
     assumptions=["dates are compared through the public Date/Scheduler API only", "n-day steps with n <= 28, month steps start on day 1 (C07's stated domain); other inputs are compared model-vs-code without property predicates"],
     explanation="Theorems: successors keep dates valid and strictly increase them; the constructor's loop yields a list satisfying TilesCalendar; any list satisfying TilesCalendar partitions its date range and the lookup returns the unique containing step; year rule for day and one-week steps in day-of-year terms for every year. The driver evaluates the same predicates on the implementation's own step lists.",
 )
+
+PROPS["C08"] = dict(
+    level="proof",
+    lean_modules=["PopsModel.Props.C08"],
+    theorems=["Pops.C08_yearly", "Pops.C08_yearly_once", "Pops.C08_end_of_year", "Pops.C08_monthly", "Pops.C08_nsteps",
+              "Pops.C08_spread", "Pops.C08_frequency", "Pops.C08_index_bijection", "Pops.C08_weather"],
+    commands=["yearly", "eoy", "monthly", "nsteps", "final", "spread", "fromstring", "weather", "actionstep", "count"],
+    runs={
+        "quick": [("h_date", "sched", 0, 3000), ("h_date", "tables", 0, 94)],
+        "thorough": [("h_date", "sched", 0, 300000), ("h_date", "tables", 0, 94)],
+    },
+    exhaustive={"quick": False, "thorough": False},
+    exhaustive_note={"quick": "frequency-name x step-unit x n (n <= 31) compatibility table complete (2520 entries); schedulers sampled",
+                     "thorough": "frequency-name x step-unit x n (n <= 31) compatibility table complete (2520 entries); schedulers sampled"},
+    rule="case = one random Scheduler (see C07) with two yearly dates (biased to 1 Jan / 28 Dec), end-of-year, monthly, final, every-n, spread season, three frequency strings, weather table, action-step lookup and count; non-trivial = accepted scheduler with >= 3 steps; distinct = blake2b of the case's protocol lines. Predicates 'fires iff the step contains such a date' are evaluated by enumerating the dates of each implementation step.",
+    assumptions=["steps shorter than a year (the property's domain); for longer steps only model-vs-code agreement is checked"],
+    explanation="Theorems characterise each builder by containment of a date in the step (yearly, end-of-year, monthly) or by index arithmetic (every-n, final, weather), the frequency-name table with its rejections, and the bijection between firing steps and action indices. The driver evaluates containment by date enumeration on the implementation's steps.",
+)
